@@ -29,7 +29,7 @@ _OMP_LIMIT = rc.single_thread_kernels()      # one OpenMP thread per shard proce
 
 PROPERTY = "C09"
 LEVEL = "exploration"
-RULE = ("Hypothesis draws a data set of DISTINCT points (as C01: lattice sites, uniform or blobs + outliers, 2..40 x 1..4 "
+RULE = ("Hypothesis draws a data set of DISTINCT points (as C01: lattice sites, uniform or blobs + outliers, 3..40 x 1..4 "
         "quick / up to 200 x 8 thorough, six dtypes, jitter/scale, three layouts), a metric (euclidean, manhattan, "
         "Chebyshev user callable), k, 1..5 sweeps, a start (cold with integer seed; warm from center indices, from "
         "(labels, distances), from all three - states from the float64 reference assigner, from library k-centers or "
@@ -59,7 +59,7 @@ SHARDS = {"quick": 4, "thorough": 16}
 # strategies
 
 @st.composite
-def medoid_case(draw, max_n=40, max_d=4, min_n=2, starts=("inds", "state", "all", "cold"),
+def medoid_case(draw, max_n=40, max_d=4, min_n=3, starts=("inds", "state", "all", "cold"),
                 drives=("proposals", "seed"), entries=("kmedoids",), max_sweeps=5):
     entry = draw(st.sampled_from(list(entries)))
     metric = draw(st.sampled_from(list(rc.METRICS)))
@@ -88,7 +88,7 @@ def medoid_case(draw, max_n=40, max_d=4, min_n=2, starts=("inds", "state", "all"
 
 
 @st.composite
-def hybrid_case(draw, max_n=40, max_d=4, min_n=2):
+def hybrid_case(draw, max_n=40, max_d=4, min_n=3):
     entry = draw(st.sampled_from(["hybrid", "KHybrid.fit"]))
     metric = draw(st.sampled_from(list(rc.METRICS)))
     shape = draw(rc.dataset_shape(max_n=max_n, max_d=max_d, min_n=min_n))
@@ -254,6 +254,8 @@ def history_classes(ctx, hist, k, start_idx=None):
 def replay_classes(ctx, start_idx, sweeps):
     case = ctx.case
     if case["proposals"] is None or start_idx is None:
+        return []
+    if sweeps * len(start_idx) ** 2 * ctx.n > 300000:      # the brute-force replay is O(sweeps * k^2 * n)
         return []
     cur, logs = list(start_idx), []
     for _ in range(sweeps):
@@ -583,23 +585,23 @@ def seed_case(draw, **kw):
 
 
 CLAUSES = [
-    Clause("sweep_cost_public", _KM_ALL_ENTRIES, run_sweep_cost_public, quick=600, thorough=8000,
+    Clause("sweep_cost_public", _KM_ALL_ENTRIES, run_sweep_cost_public, quick=800, thorough=9000,
            doc="every stand-alone sweep leaves the mean squared distance no larger (history via n_iters=1..s)"),
-    Clause("sweep_cost_iterations", _KM_WARM, run_sweep_cost_iterations, quick=500, thorough=7000,
+    Clause("sweep_cost_iterations", _KM_WARM, run_sweep_cost_iterations, quick=600, thorough=8000,
            doc="sweep s+1 of _kmedoids_iterations from identical state (as hybrid calls it) does not raise the cost"),
-    Clause("cluster_count_kept", any_entry_case(), run_cluster_count_kept, quick=500, thorough=7000,
+    Clause("cluster_count_kept", any_entry_case(), run_cluster_count_kept, quick=600, thorough=8000,
            doc="every sweep keeps the number of clusters"),
-    Clause("centers_stay_frames", any_entry_case(), run_centers_stay_frames, quick=500, thorough=7000,
+    Clause("centers_stay_frames", any_entry_case(), run_centers_stay_frames, quick=600, thorough=8000,
            doc="every center stays an actual frame of the input"),
-    Clause("hybrid_not_worse", _HY, run_hybrid_not_worse, quick=400, thorough=6000,
+    Clause("hybrid_not_worse", _HY, run_hybrid_not_worse, quick=500, thorough=7000,
            doc="k-hybrid is never worse in cost than the k-centers solution it starts from"),
-    Clause("reproducible_seed", seed_case(), run_reproducible_seed, quick=400, thorough=6000,
+    Clause("reproducible_seed", seed_case(), run_reproducible_seed, quick=500, thorough=7000,
            doc="with a fixed random seed the outcome is reproducible"),
     Clause("reproducible_proposals", medoid_case(starts=("inds", "state", "all"), drives=("proposals",)),
-           run_reproducible_proposals, quick=300, thorough=5000,
+           run_reproducible_proposals, quick=400, thorough=6000,
            doc="with explicitly supplied proposals the outcome is reproducible"),
     Clause("warm_state_guarantees", medoid_case(starts=("all",), entries=("kmedoids", "KMedoids.fit", "kmedoids")),
-           run_warm_state_guarantees, quick=300, thorough=5000,
+           run_warm_state_guarantees, quick=400, thorough=6000,
            doc="starting from a supplied consistent state (centers, labels, distances) preserves the guarantees"),
     Clause("sweep_cost_large", medoid_case(max_n=200, max_d=8, min_n=30), run_sweep_cost_public, quick=0,
            thorough=1200, doc="cost history on 30..200 frames"),
